@@ -26,7 +26,7 @@ PICK = {
  'C08': ['rsub_axis', 'radd_axes2', 'asub_axis'],
  'C10': ['ev_transpose_col', 'ev_reshape_old', 'ev_slice_old', 'ev_sum_row', 'ev_tile_old4', 'ev_pad_old4', 'ev_flip_transpose_old', 'ev_transpose_flip_slice_old', 'out_transpose_row', 'out_invert_old'],
  'C12': ['tight_avx', 'tight_sse', 'tight_v256', 'binary2_avx', 'reduce2_avx'],
- 'C11': ['btraits', 'tile_traits', 'outer_traits'],
+ 'C11': ['btraits', 'tile_traits', 'outer_traits', 'dimchange_traits'],
  'C13': ['th_transpose', 'th_add', 'thd_transpose'],
  # the library's own growable buffer (nmtools_list in NMTOOLS_DISABLE_STL builds) and bounded vector: every access inside the heap block / the logical size over 2-step histories
  'C19': ['hist_vector_ops2', 'copy_independent', 'copy_then_grow', 'hist_static_vector'],
